@@ -1592,12 +1592,11 @@ class Mapping:
         if not overwrite and inVersion in mapping[flavor][inProduct]:
             return
 
-        if outVersion:
-            mapping[flavor][inProduct][inVersion] = (outProduct, outVersion)
-        else:
-            # Indicate product should be removed completely
-            if inVersion in mapping[flavor][inProduct]:
-                del mapping[flavor][inProduct][inVersion]
+        if not outVersion:
+            # This version of the product (every version, for "any") should be removed: a row like
+            # any other, with no version to map to
+            outVersion = None
+        mapping[flavor][inProduct][inVersion] = (outProduct, outVersion)
 
     def exists(self, product, version, flavor="generic"):
         """does a mapping exist?"""
@@ -1620,9 +1619,6 @@ class Mapping:
         if (flavor not in self._mapping or inProduct not in self._mapping[flavor]):
             # No mapping specified
             return inProduct, inVersion
-        if not len(self._mapping[flavor][inProduct]):
-            # Indicate product should be removed completely
-            return inProduct, None
         for versName in (inVersion, "any"):
             if versName in self._mapping[flavor][inProduct]:
                 return self._mapping[flavor][inProduct][versName]
@@ -1650,6 +1646,8 @@ class Mapping:
         for f in self._mapping.keys():
             for inProduct in self._mapping[f].keys():
                 for inVersion, (outProduct, outVersion) in self._mapping[f][inProduct].items():
+                    if outVersion is None:
+                        continue        # a removal has no inverse
                     if inv._exists(outProduct, outVersion, flavor=f):
                         raise RuntimeError("Mapping isn't one-to-one and onto, hence inverse is ill-defined")
                     inv.add(outProduct, inVersion=outVersion, outProduct=inProduct, outVersion=inVersion,
